@@ -248,7 +248,9 @@ func checkC16(w *World, c *Check, tier string) {
 
 	// ---- noinvent: the identifiers that flattening (and de-duplication, on which the list variant is built) put into
 	// a list are exactly what GetID/GetLink of the member returned — never a rewritten or constant IRI ----
-	for _, fname := range []string{"ItemCollectionDeduplication", "FlattenItemCollection"} {
+	// (since fix 7bd0a2e the list flattener no longer copies identifiers out of the de-duplicated list, so that list
+	// is no longer part of what flattening produces and is not judged here)
+	for _, fname := range []string{"FlattenItemCollection"} {
 		f := w.Func(fname)
 		if f == nil {
 			c.bad("C16.noinvent", "anchor:"+fname, "-", "not found")
